@@ -55,6 +55,9 @@ var c13Faults = []c13Fault{
 	{"commitment-altered", []string{"contribute", "contribute-reply"}, true},
 	{"vector-too-short", []string{"contribute", "contribute-reply"}, true},
 	{"vector-too-long", []string{"contribute", "contribute-reply"}, true},
+	{"vector-empty", []string{"contribute", "contribute-reply"}, true},
+	{"vector-entry-truncated", []string{"contribute", "contribute-reply"}, true},
+	{"share-empty", []string{"contribute", "contribute-reply"}, true},
 }
 
 func init() { Children["C13child"] = c13Child }
@@ -168,6 +171,15 @@ func c13Config(cfg Cfg, n, t int) bool {
 						sec, vv = fakeContribution(t-1, target)
 					case "vector-too-long":
 						sec, vv = fakeContribution(t+1, target)
+					case "vector-empty":
+						sec, _ = fakeContribution(t, target)
+						vv = [][]byte{}
+					case "vector-entry-truncated":
+						sec, vv = fakeContribution(t, target)
+						vv[len(vv)-1] = vv[len(vv)-1][:47]
+					case "share-empty":
+						_, vv = fakeContribution(t, target)
+						sec = []byte{}
 					}
 					apply := func(s *[]byte, v *[][]byte) {
 						if f.Name == "commitment-altered" {
@@ -239,7 +251,7 @@ func c13Config(cfg Cfg, n, t int) bool {
 // C13 runs the fault matrix in child processes (a crash of an instance is a violation attributed to the last case).
 func C13(cfg Cfg) int {
 	run := evid.New("C13", cfg.Tier, cfg.Seed, "fault_enumeration")
-	run.Rule = "for (n,t) in {(2,2),(3,2),(3,3),(4,3),(5,3)} (thorough adds (6,4),(7,4)) on a cluster of real instances: at every position of the prepare / execute / contribute message sequence of a generation, each fault kind (message lost, error reply, duplicate delivery, share replaced by a random one, genuine share for another identifier, one commitment altered, genuine vector one entry too short, genuine vector one entry too long) is injected on the request and, for contributions, also on the reply; " +
+	run.Rule = "for (n,t) in {(2,2),(3,2),(3,3),(4,3),(5,3)} (thorough adds (6,4),(7,4)) on a cluster of real instances: at every position of the prepare / execute / contribute message sequence of a generation, each fault kind (message lost, error reply, duplicate delivery, share replaced by a random one, genuine share for another identifier, one commitment altered, genuine vector one entry too short, genuine vector one entry too long, empty vector, vector with a truncated entry, empty share) is injected on the request and, for contributions, also on the reply; " +
 		"the generation must fail, no participant may hold the account, the receiving instance must reject an invalid contribution, and the process must survive; a duplicate contribution is judged only by consistency of a successful result; distinct = (n, t, fault, message kind, position, outcome) cells"
 	run.Assume = []string{"faults are injected by the routing sender that replaces the gRPC transport"}
 	bin := os.Getenv("VH_BIN")
@@ -350,11 +362,17 @@ func c13Wire(run *evid.Run, cfg Cfg) {
 			sec, vv = fakeContribution(t-1, to)
 		case "vector-too-long":
 			sec, vv = fakeContribution(t+1, to)
+		case "vector-empty":
+			vv = [][]byte{}
+		case "vector-entry-truncated":
+			vv[len(vv)-1] = vv[len(vv)-1][:47]
+		case "share-empty":
+			sec = []byte{}
 		}
 		return sec, vv
 	}
 	seq := 0
-	faults := []string{"", "share-random", "share-for-other-id", "commitment-altered", "vector-too-short", "vector-too-long"}
+	faults := []string{"", "share-random", "share-for-other-id", "commitment-altered", "vector-too-short", "vector-too-long", "vector-empty", "vector-entry-truncated", "share-empty"}
 	for round := 0; round < cfg.N(1, 6); round++ {
 		for _, leg := range []string{"request", "reply"} {
 			for _, fault := range faults {
